@@ -84,6 +84,27 @@ def generate(prop, seed, tier='quick', sub='crash'):
             pre_ops.insert(0, {'op': 'add_loose', 'c': cidx, 'via': 'bytes', 'seed': 0, 't': 'b'})
     if kind == 'import' and not any(op.get('t') == 'b' for op in pre_ops):
         pre_ops = [dict(gen.gen_op(rng, 'add_pack', len(pool), opts), t='b'), dict(gen.gen_op(rng, 'add_loose', len(pool), opts), t='b')] + pre_ops
+    # make the victim meaty: faults and crash points only matter inside operations that have in-flight state
+    if kind == 'pack_loose' and rng.random() < 0.7:
+        # several loose objects right before the victim, often spread over several packs
+        for _ in range(rng.randint(2, 6)):
+            pre_ops.append({'op': 'add_loose', 'c': rng.randrange(len(pool)), 'via': 'bytes', 'seed': rng.randrange(1 << 20)})
+        if rng.random() < 0.7:
+            config['pack_size_target'] = rng.choice([1, 50, 500, 3000])
+    if kind == 'clean' and rng.random() < 0.6:
+        # objects that are both loose and packed (packed without cleaning), plus some that are only loose
+        for _ in range(rng.randint(1, 4)):
+            pre_ops.append({'op': 'add_loose', 'c': rng.randrange(len(pool)), 'via': 'bytes', 'seed': rng.randrange(1 << 20)})
+        pre_ops.append({'op': 'pack_loose', 'compress': rng.choice(['no', 'yes', 'auto']), 'validate': True, 'clean_per_pack': False, 'do_fsync': True, 'callback': False})
+        if rng.random() < 0.5:
+            pre_ops.append({'op': 'add_loose', 'c': rng.randrange(len(pool)), 'via': 'bytes', 'seed': rng.randrange(1 << 20)})
+    if kind in ('repack', 'repack_pack') and rng.random() < 0.6:
+        # packs with holes in several places, several packs
+        cs = [rng.randrange(len(pool)) for _ in range(rng.randint(3, 7))]
+        pre_ops.append({'op': 'add_pack', 'cs': cs, 'api': 'objects', 'via': 'bytesio', 'compress': rng.random() < 0.5, 'no_holes': False, 'read_twice': True, 'do_fsync': True, 'callback': False, 'seed': rng.randrange(1 << 20)})
+        pre_ops.append({'op': 'delete', 'keys': [rng.randrange(64) for _ in range(rng.randint(1, 3))], 'absent': 0, 'repeats': 0, 'seed': rng.randrange(1 << 20)})
+        if rng.random() < 0.6:
+            config['pack_size_target'] = rng.choice([1, 50, 500, 3000])
     if sub == 'powerloss':
         # C06 is stated for the default fsync settings
         victim['do_fsync'] = True
